@@ -30,6 +30,7 @@ def composite_histories():
     H["query-spanning-expr"] = [("add", 0, [A, "y<=K2"]), ("eval", 0, "x+y", 9, []), ("max", 0, "x+y", False, []), ("eval", 0, "x", 9, [])]
     H["batch-two-groups"] = [("add", 0, [A, "y<=K2"]), ("batch", 0, ["x", "y"], 9, []), ("add", 0, ["y!=K1"]), ("batch", 0, ["y", "x"], 2, [])]
     H["unsat-one-group"] = [("add", 0, [A, "x>K2"]), ("add", 0, ["y<=K2"]), ("sat", 0, []), ("eval", 0, "y", 2, []), ("solution", 0, "y", 1, [])]
+    H["unsat-other-group-extras"] = [("add", 0, ["y<=K2"]), ("add", 0, ["y>=K0"]), ("eval", 0, "x", 2, ["x==K1"]), ("max", 0, "x", False, ["x<=K0"]), ("solution", 0, "x", 1, ["x<=K0"]), ("sat", 0, ["x==K1"])]
     H["false-constraint"] = [("add", 0, [A]), ("add", 0, ["false"]), ("sat", 0, []), ("eval", 0, "x", 1, [])]
     H["concrete-true"] = [("add", 0, ["true", A]), ("sat", 0, []), ("eval", 0, "x", 9, [])]
     H["simplify-middle"] = [("add", 0, [A, "y<=K2"]), ("eval", 0, "x", 2, []), ("simplify", 0), ("add", 0, ["x==y"]), ("eval", 0, "y", 9, []), ("max", 0, "x", False, [])]
@@ -109,6 +110,13 @@ def branch_histories():
     H["branch-with-pending-unsat"] = [("add", 0, [A]), ("sat", 0, []), ("add", 0, ["x>K2"]), ("branch", 0, 1), ("sat", 1, []), ("sat", 0, [])]
     H["branch-with-pending-then-solution"] = [("add", 0, [A]), ("max", 0, "x", False, []), ("add", 0, ["x!=K2"]), ("branch", 0, 1), ("solution", 1, "x", 2, []), ("max", 1, "x", False, [])]
     H["cross-query-branch-link"] = [("add", 0, [A, "y<=K2"]), ("eval", 0, "x+y", 2, []), ("branch", 0, 1), ("add", 0, ["x+y==K0"]), ("eval", 1, "x+y", 9, []), ("eval", 0, "x+y", 9, [])]
+    # one side holds a cached, non-optimal model; the OTHER side's signed optimum query must not change what this side answers
+    H["signed-optimum-other-side"] = [("add", 0, ["x!=K2"]), ("eval", 0, "x", 1, ["x==K1"]), ("branch", 0, 1), ("max", 1, "x", True, []), ("max", 0, "x", True, []), ("min", 0, "x", True, []),
+                                      ("min", 1, "x", True, [])]
+    H["signed-optimum-other-side-2"] = [("add", 0, [A]), ("eval", 0, "x", 1, ["x==K1"]), ("branch", 0, 1), ("min", 0, "x", True, []), ("min", 1, "x", True, []), ("max", 1, "x", False, []),
+                                        ("max", 0, "x", False, [])]
+    H["replacement-added-on-branch"] = [("add", 0, [A]), ("branch", 0, 1), ("add_repl", 1, "x", 1), ("eval", 0, "x", 9, []), ("max", 0, "x+1", False, [])]
+    H["replacement-added-on-parent"] = [("add", 0, [A]), ("eval", 0, "x", 2, []), ("branch", 0, 1), ("branch", 1, 2), ("add_repl", 0, "x", 1), ("eval", 2, "x", 9, []), ("eval", 1, "x", 9, [])]
     H["minmax-expansion-leak"] = [("add", 0, [A]), ("branch", 0, 1), ("max", 1, "x", False, ["x!=K2"]), ("max", 1, "x", False, []), ("add", 0, [U]), ("max", 0, "x", False, []), ("min", 1, "x", False, [])]
     return H
 
@@ -176,6 +184,9 @@ def core_histories():
     H["core-branch-after-unsat-3way"] = [("add", 0, [A]), ("add", 0, ["x>=K1"]), ("add", 0, ["x!=K2"]), ("sat", 0, []), ("branch", 0, 1), ("add", 1, ["y<=K2"]), ("unsat_core", 1), ("unsat_core", 0)]
     H["core-branch-after-unsat-queries"] = [("add", 0, [A, "x>=K1"]), ("add", 0, ["x!=K2"]), ("eval", 0, "x", 2, []), ("branch", 0, 1), ("branch", 1, 2), ("add", 2, ["y==K1"]), ("unsat_core", 2), ("unsat_core", 1)]
     H["false-added-later-core"] = [("add", 0, ["x==y"]), ("sat", 0, []), ("add", 0, ["false"]), ("unsat_core", 0), ("sat", 0, [])]
+    H["annotated-three-way"] = [("add", 0, ["x<=K0@"]), ("add", 0, ["x>=K1"]), ("add", 0, ["x!=K1@"]), ("unsat_core", 0)]
+    H["annotated-pair"] = [("add", 0, ["x<=K0@"]), ("add", 0, ["x>K2@"]), ("unsat_core", 0)]
+    H["annotated-on-branch"] = [("add", 0, ["x<=K0@", "y<=K2"]), ("branch", 0, 1), ("add", 1, ["x>K2@"]), ("unsat_core", 1), ("unsat_core", 0)]
     H["branch-core"] = [("add", 0, [A]), ("branch", 0, 1), ("add", 1, ["x>K2"]), ("unsat_core", 1), ("unsat_core", 0)]
     return H
 
@@ -265,6 +276,10 @@ def obligations(prop, tier):
         for cls in classes:
             if (cls == "SolverHybridApprox") != name.startswith("approx-"):
                 continue   # approximate histories run on the hybrid solver asked with exact=False, and only there
+            if name.startswith("annotated-") and cls.startswith("SolverHybrid"):
+                # stated bound: the VSA backend of the hybrid solver rejects every annotation type it does not know (ValueError at add,
+                # BackendVSA.apply_annotation) - adding a user-annotated constraint is outside what that solver accepts
+                continue
             if quick and prop in ("C14", "C15", "C18") and cls in ("SolverCacheless", "SolverHybridExact") and hmod(name + cls, 3):
                 continue
             if quick and prop == "C18" and hmod(name + cls, 2):
